@@ -22,7 +22,7 @@ import subprocess
 from fractions import Fraction
 
 EXTRACT_V = """From Coq Require Import NArith QArith List Bool.
-From PL.Sem Require Import Program Sem SemFast.
+Require Import PL.Sem.Program PL.Sem.Sem PL.Sem.SemFast.
 Require Extraction.
 Require ExtrOcamlBasic.
 Extraction Language OCaml.
